@@ -261,8 +261,16 @@ Definition pm_restart (now : Z) (m : message) (h : hs) (inst : instance) : res i
   | FPanic => RPanic
   end.
 
-(* a proposal is also recorded next to the signatures; then the round is persisted *)
-Definition pm_prop (m : message) (req : request) (h : hs) (i4 : instance) (op : option operation)
+(* ProcessMessage puts the operation into the pool before the round is saved; the messages a
+   reinit message embeds are replayed without (their operations travel inside the reinit operation) *)
+Definition put_opt (put : bool) (h : hs) (op : option operation) : hs :=
+  match put, op with
+  | true, Some o => match put_operation h o with ROk h' _ => h' | _ => h end
+  | _, _ => h
+  end.
+
+(* a proposal is also recorded next to the signatures; then the operation is put and the round is persisted *)
+Definition pm_prop (put : bool) (m : message) (req : request) (h : hs) (i4 : instance) (op : option operation)
   : res (option operation) :=
   let prop : res unit :=
     if String.eqb (m_event m) ev_sgn_start then
@@ -282,11 +290,11 @@ Definition pm_prop (m : message) (req : request) (h : hs) (i4 : instance) (op : 
   match prop with
   | RPanic => RPanic
   | RErr h => RErr h
-  | ROk h _ => ROk (save_fsm h (m_round m) (dump_of i4)) op
+  | ROk h _ => ROk (save_fsm (put_opt put h op) (m_round m) (dump_of i4)) op
   end.
 
 (* from the FSM call onwards *)
-Definition pm_tail (now : Z) (m : message) (req : request) (h : hs) (inst : instance)
+Definition pm_tail (put : bool) (now : Z) (m : message) (req : request) (h : hs) (inst : instance)
   : res (option operation) :=
   if negb (sender_is_participant (i_payload inst) (m_sender m) req) then RErr h else
   match do_live inst (m_event m) req with
@@ -319,19 +327,19 @@ Definition pm_tail (now : Z) (m : message) (req : request) (h : hs) (inst : inst
                                              o_sigs := sigs; o_data := 0%N |}) in
                   match do_fresh (dump_of i3) ev_sgn_restart (RDefault now) with
                   | FErr => RErr h' | FPanic => RPanic
-                  | FOk i4 _ _ => pm_prop m req h' i4 op
+                  | FOk i4 _ _ => pm_prop put m req h' i4 op
                   end
               | None => RErr h
               end
           | _ => RErr h
           end
-        else pm_prop m req h i3 op
+        else pm_prop put m req h i3 op
       end
     end
   end.
 
 (* processMessage: returns the operation to put into the pool, if any *)
-Definition process_message (now : Z) (h0 : hs) (m : message) : res (option operation) :=
+Definition process_message (put : bool) (now : Z) (h0 : hs) (m : message) : res (option operation) :=
   match get_instance h0 (m_round m) true with
   | RPanic => RPanic
   | RErr h => RErr h
@@ -379,7 +387,7 @@ Definition process_message (now : Z) (h0 : hs) (m : message) : res (option opera
       | RErr h => RErr h
       | ROk h inst =>
         match m_req m with
-        | MFsm req => pm_tail now m req h inst
+        | MFsm req => pm_tail put now m req h inst
         | _ => RErr h
         end
       end
@@ -388,11 +396,10 @@ Definition process_message (now : Z) (h0 : hs) (m : message) : res (option opera
 
 (* ProcessMessage for an ordinary board message *)
 Definition process_board_message (now : Z) (h0 : hs) (m : message) : res unit :=
-  match process_message now h0 m with
+  match process_message true now h0 m with
   | RPanic => RPanic
   | RErr h => RErr h
-  | ROk h None => ROk h tt
-  | ROk h (Some op) => put_operation h op
+  | ROk h _ => ROk h tt
   end.
 
 (* reinitDKG *)
@@ -401,10 +408,12 @@ Fixpoint reinit_msgs (now : Z) (me : tok) (id : tok) (h : hs) (msgs : list messa
   match msgs with
   | [] => Some (h, ops)
   | m :: r =>
-      if String.eqb (m_event m) ev_sgn_start then Some (h, ops)
-      else if negb (N.eqb (m_round m) id) then reinit_msgs now me id h r ops
+      (* messages of other rounds are skipped - also another round's signing batch, which does not
+         end the replay of this round *)
+      if negb (N.eqb (m_round m) id) then reinit_msgs now me id h r ops
+      else if String.eqb (m_event m) ev_sgn_start then Some (h, ops)
       else if N.eqb (m_recipient m) 0 || N.eqb (m_recipient m) me then
-        match process_message now h m with
+        match process_message false now h m with
         | RPanic => None
         | RErr h' => reinit_msgs now me id h' r ops
         | ROk h' None => reinit_msgs now me id h' r ops
